@@ -632,11 +632,90 @@ Example page_example :
   /\ scan_page 3 [PResp 503; PResp 500; PResp 502; PResp 599; PResp 200] 0 = (PExn HTTPError, 4).
 Proof. vm_compute. split; reflexivity. Qed.
 
+(* ---- several repositories in order (MultiRepository.get_dist) ------------------------------- *)
+Section MultiP.
+Variable sha : bytes -> string.
+Variable meta : fname -> bytes -> mres.
+Variable allow : bool.
+Variable maxdg : option N.
+Notation repo_get_dist := (repo_get_dist sha meta allow maxdg).
+Notation multi_get_dist := (multi_get_dist sha meta allow maxdg).
+
+Definition is_nc (x : sres) : Prop := x = SExn NoCandidate.
+
+Lemma multi_head_exn r rest w w1 e :
+  repo_get_dist r w = (w1, SExn e) -> e <> NoCandidate ->
+  multi_get_dist (r :: rest) w = (w1, SExn e, [SExn e]).
+Proof. intros H N. cbn. rewrite H. destruct e; try reflexivity. congruence. Qed.
+
+Lemma multi_head_ok r rest w w1 c cd :
+  repo_get_dist r w = (w1, SOk c cd) -> multi_get_dist (r :: rest) w = (w1, SOk c cd, [SOk c cd]).
+Proof. intros H. cbn. rewrite H. reflexivity. Qed.
+
+(* every repository that was passed over ended with NoCandidate: a failed transfer or an
+   exhausted retry budget on an earlier index is never swallowed.  [tr] = the results of the
+   repositories that were asked, in order. *)
+Theorem multi_only_no_candidate_is_skipped rs : forall w w' res tr,
+  multi_get_dist rs w = (w', res, tr) ->
+  (res = SExn NoCandidate /\ Forall is_nc tr) \/
+  (exists pre, tr = (pre ++ [res])%list /\ Forall is_nc pre).
+Proof.
+  induction rs as [|r rest IH]; intros w w' res tr H; cbn in H.
+  - inversion H. subst. left. split; [reflexivity|constructor].
+  - destruct (repo_get_dist r w) as [w1 r1] eqn:R.
+    assert (STOP : (w1, r1, [r1]) = (w', res, tr) ->
+              exists pre, tr = (pre ++ [res])%list /\ Forall is_nc pre).
+    { intro E. inversion E. subst. exists []. split; [reflexivity|constructor]. }
+    destruct r1 as [c cd|e]; [right; auto|]. destruct e; try (right; auto; fail).
+    destruct (multi_get_dist rest w1) as [[w2 res2] tr2] eqn:M. inversion H. subst.
+    apply IH in M. destruct M as [[E F]|[pre [E F]]].
+    + left. split; [exact E|constructor; [reflexivity|exact F]].
+    + right. exists (SExn NoCandidate :: pre). split; [rewrite E; reflexivity|constructor; [reflexivity|exact F]].
+Qed.
+
+(* a 5xx sequence longer than the retry budget on an index ends the run with HTTPError,
+   whatever the later repositories offer *)
+Theorem multi_page_exhausted_fails_run r rest w fives s :
+  Forall (fun x => is_5xx x = true) fives -> List.length fives = S (r_retries r) ->
+  r_pages r = (map PResp fives ++ s)%list ->
+  multi_get_dist (r :: rest) w = (w, SExn HTTPError, [SExn HTTPError]).
+Proof.
+  intros F L P. apply multi_head_exn; [|discriminate].
+  unfold CacheC15.repo_get_dist. rewrite P, (page_retry_exhausted (r_retries r) fives s 0 F L). reflexivity.
+Qed.
+
+(* the page was served; the transfer of the candidate being tried fails (connection error,
+   broken stream, error status): the run ends with that exception, later repositories are not asked *)
+Theorem multi_failed_transfer_fails_run r rest w n c cs v fn w1 e :
+  scan_page (r_retries r) (r_pages r) 0 = (PParsed 200%N, n) -> r_listing r = c :: cs ->
+  cver c = Some v -> (csdist c && negb allow) = false -> cfile c = Some fn ->
+  do_download sha w fn (cres c) = (w1, DExn e) ->
+  multi_get_dist (r :: rest) w = (w1, SExn e, [SExn e]).
+Proof.
+  intros P L V S F D.
+  destruct (failed_transfer_fails_run sha meta allow maxdg w c cs [] v fn w1 e V S F D) as [H [N1 _]].
+  apply multi_head_exn; [|exact N1].
+  unfold CacheC15.repo_get_dist. rewrite P. cbn [fst]. rewrite N.eqb_refl, L. exact H.
+Qed.
+End MultiP.
+
+Example multi_example :
+  let a := mkRepo 1 [PResp 503; PResp 502; PResp 200] [w_c2] in
+  let b := mkRepo 1 [PResp 200] [w_c1] in
+  (* two 5xx answers with a budget of one retry: the run fails, index b is not asked *)
+  multi_get_dist toy_sha w_meta true None [a; b] (mkW [] [RBody 200 w_good1] []) =
+    (mkW [] [RBody 200 w_good1] [], SExn HTTPError, [SExn HTTPError]) /\
+  (* index a has no page for the project (404): NoCandidate, index b answers *)
+  fst (multi_get_dist toy_sha w_meta true None [mkRepo 1 [PResp 404] [w_c2]; b] (mkW [] [RBody 200 w_good1] [])) =
+    (mkW [(w_f1, w_good1)] [] [cres w_c1], SOk w_c1 false).
+Proof. vm_compute. split; reflexivity. Qed.
+
 (* obligations on the shape facts T1 read from _do_download / resolve_candidate / do_get_candidate:
    the model above is only faithful while these hold *)
 Lemma gen_download_shape :
   dl_status_refs = 1%N /\ dl_status_check_before_write = true /\ dl_digest_sep = "#sha256=" /\
   dl_reuse_guarded_by_digest = true /\
   dl_removes_on_mismatch = true /\ rc_except_class = "Exception" /\ rc_removal_guard_ok = true /\
-  rc_reraises = true /\ scan_handlers = [EMetadata].
+  rc_reraises = true /\ scan_handlers = [EMetadata] /\
+  multi_get_dist_handlers = ["NoCandidateException"%string].
 Proof. repeat split; reflexivity. Qed.
